@@ -398,7 +398,7 @@ def check_C13(run, replay=None):
     task_cases, task_steps = (28, 1000) if not thorough else (210, 1200)
     reg_hist, reg_steps = (4, 1000) if not thorough else (48, 1400)
     tm_cases, tm_steps = (16, 1000) if not thorough else (100, 2000)
-    C.proof_stage(run, "C13")
+    C.proof_stage(run, "C13", extra_targets=("Rt/Check.vo",))
     rp = json.load(open(replay)) if replay else None
     seed = run.seed
     if rp and rp.get("rerun"):
@@ -469,6 +469,9 @@ def check_C13(run, replay=None):
         bad_model.sort(key=lambda x: x[2])
         run.violation("correspondence", {"property": "C13", "what": "release model and implementation differ; C13_ok still holds on every trace seen",
                                          "rerun": rerun, "cases": [dict(shrink_case(c, s), at_step=s) for _, c, s in bad_model[:4]]}, no_input=True)
+    if not rp:
+        from engines import rt_eng
+        rt_eng.release_stage(run, "C13", 2000 if not thorough else 30000)
     run.cov["rule"] = ("long histories (quick: ~1e3 calls each; thorough: ~1e5 calls per kind in total): (task) 7 hosts as in C02 with drop counters on a value captured by every task "
                        "future and the executor/command live-task hooks read after every call; (reg) twin runs as in C09 with the registry hook read after every call: event/response "
                        "cycles, renders, subscribe / consumer-ends; (timer) legacy crux_time set / clear / fire with the cleared-set hook. A history is non-trivial when it has >= 100 calls.")
